@@ -68,8 +68,79 @@ def preload(cfiles):
         cast.load_tu(c)
 
 
+def _engine_hash():
+    import hashlib, glob
+    h = hashlib.sha1()
+    files = sorted(glob.glob(os.path.join(ROOT, 'engine/cvc/*.py')))
+    files += sorted(glob.glob(os.path.join(ROOT, 'contracts/c/*.py')))
+    files += [os.path.join(ROOT, 'contracts/py/extern_cvxopt.py'),
+              os.path.join(ROOT, 'contracts/py/algebra.py'),
+              os.path.join(ROOT, 'engine/smt.py'),
+              os.path.join(ROOT, 'engine/cside.py')]
+    for f in files:
+        h.update(f.encode())
+        try:
+            h.update(open(f, 'rb').read())
+        except OSError:
+            pass
+    return h.hexdigest()
+
+
+def _source_hash(cfile):
+    import hashlib, glob
+    from engine.cvc import cast
+    d = os.path.join(cast.REPO, 'src/C')
+    h = hashlib.sha1()
+    for f in [os.path.join(d, cfile)] + sorted(glob.glob(os.path.join(
+            d, '*.h'))):
+        h.update(open(f, 'rb').read())
+    return h.hexdigest()
+
+
 def run_tasks(tasks, procs=None):
+    """runs the tasks in a process pool; per-task reports are cached under
+    .cache/cvc-reports keyed by the SHA-1 of every input (the translation
+    unit and its headers, the engine, the contracts, the task), so that the
+    several properties served by the same functions do not repeat the same
+    symbolic execution within one tree state"""
+    import hashlib, json
     procs = procs or min(16, os.cpu_count() or 4)
+    cdir = os.path.join(ROOT, '.cache', 'cvc-reports')
+    os.makedirs(cdir, exist_ok=True)
+    eh = _engine_hash() + os.environ.get('VERIF_CROSSCHECK', '')
+    sh = {}
+    out = [None] * len(tasks)
+    todo = []
+    for i, t in enumerate(tasks):
+        c = t['cfile']
+        if c not in sh:
+            sh[c] = _source_hash(c)
+        key = hashlib.sha1((eh + sh[c] + json.dumps(t, sort_keys=True)
+                            ).encode()).hexdigest()
+        cp = os.path.join(cdir, key + '.json')
+        if os.path.exists(cp) and not os.environ.get('VERIF_NOCACHE'):
+            try:
+                out[i] = json.load(open(cp))
+                continue
+            except Exception:
+                pass
+        todo.append((i, t, cp))
+    if todo:
+        reps = _run_tasks([t for _, t, _ in todo], procs)
+        for (i, t, cp), r in zip(todo, reps):
+            out[i] = r
+            if r.get('status') in ('ok',):
+                try:
+                    tmp = cp + '.%d' % os.getpid()
+                    with open(tmp, 'w') as f:
+                        json.dump(r, f, default=str)
+                    os.replace(tmp, cp)
+                except Exception:
+                    pass
+    return out
+
+
+def _run_tasks(tasks, procs):
     cfiles = sorted(set(t['cfile'] for t in tasks))
     # AST extraction in parallel first (one process per TU)
     ctx = mp.get_context('fork')
